@@ -29,63 +29,133 @@ def interval_tables(prog: Program, run: Run, R: str) -> None:
     flip = {"<": ">", "<=": ">=", ">": "<", ">=": "<="}
     for name, table in want.items():
         f = prog.func(f"Limit.{name}")
-        cfg = CFG(f.node)
         vparam = f.params()[1]
-        got: Dict[str, str] = {}
-        true_cases: Set[str] = set()
-        for r in [x for x in walk_no_nested(f.node) if isinstance(x, ast.Return)]:
-            conds = cfg.branch_conditions(cfg.node_of(r))
-            case = None
-            for t, pol in conds:
-                s = ast.unparse(t)
-                if "IntervalType.OPEN" in s and pol and "==" in s:
-                    case = "OPEN"
-                elif "IntervalType.CLOSED" in s and pol:
-                    case = "CLOSED"
-            v = r.value
+
+        class _Raise(Exception):
+            pass
+
+        def atom(e, env):
+            """a value of the tiny domain {None, "VAL", ("IT", <member>)} or _Raise"""
+            s = ast.unparse(e)
+            if isinstance(e, ast.Constant) and e.value is None:
+                return None
+            if s in env:
+                return env[s]
+            if s.startswith("IntervalType.") and s.count(".") == 1:
+                return ("IT", s.split(".")[1])
+            if isinstance(e, (ast.Tuple, ast.List, ast.Set)):
+                return tuple(atom(x, env) for x in e.elts)
+            raise _Raise(s)
+
+        def ev(t, env):
+            if isinstance(t, ast.BoolOp):
+                vals = [ev(v, env) for v in t.values]
+                return all(vals) if isinstance(t.op, ast.And) else any(vals)
+            if isinstance(t, ast.UnaryOp) and isinstance(t.op, ast.Not):
+                return not ev(t.operand, env)
+            if isinstance(t, ast.Compare) and len(t.ops) == 1:
+                l, r = atom(t.left, env), atom(t.comparators[0], env)
+                op = t.ops[0]
+                if isinstance(op, (ast.Eq, ast.Is)):
+                    return l == r
+                if isinstance(op, (ast.NotEq, ast.IsNot)):
+                    return l != r
+                if isinstance(op, ast.In):
+                    return l in r
+                if isinstance(op, ast.NotIn):
+                    return l not in r
+            raise _Raise(ast.unparse(t))
+
+        def walk(body, env):
+            """the Return reached (or "RAISE") for the given interval type and value presence"""
+            for st in body:
+                if isinstance(st, ast.Expr) and isinstance(st.value, ast.Constant):
+                    continue
+                if isinstance(st, ast.Return):
+                    return st
+                if isinstance(st, ast.If):
+                    r = walk(st.body if ev(st.test, env) else st.orelse, env)
+                    if r is not None:
+                        return r
+                    continue
+                if isinstance(st, (ast.Assign, ast.AnnAssign)) and isinstance(
+                        st.targets[0] if isinstance(st, ast.Assign) else st.target, ast.Name):
+                    tg = st.targets[0] if isinstance(st, ast.Assign) else st.target
+                    if st.value is None:
+                        continue
+                    v = st.value
+                    if isinstance(v, ast.IfExp):
+                        v = v.body if ev(v.test, env) else v.orelse
+                    env[tg.id] = atom(v, env)
+                    continue
+                if isinstance(st, ast.Expr) and isinstance(st.value, ast.Call) and call_name(
+                        st.value) == "odxraise":
+                    continue
+                if isinstance(st, ast.Raise):
+                    return "RAISE"
+                if isinstance(st, ast.Pass):
+                    continue
+                raise _Raise(stmt_key(st))
+            return None
+
+        def case(it, has_value=True):
+            env = {"self.interval_type": it}
+            for nm in ("self._value", "self.value"):
+                env[nm] = "VAL" if has_value else None
+            try:
+                return walk(f.node.body, env), env
+            except _Raise as e:
+                raise AnalysisError(f"Limit.{name}: statement or test outside the decision "
+                                    f"table's language: {e}")
+
+        got: Dict[str, Optional[str]] = {}
+        for cname, it in (("CLOSED", ("IT", "CLOSED")), ("OPEN", ("IT", "OPEN")), ("NONE", None)):
+            r, env = case(it)
+            v = r.value if isinstance(r, ast.Return) else None
+            got[cname] = None
             if isinstance(v, ast.Compare) and len(v.ops) == 1 and type(v.ops[0]) in sym:
                 l, rr = v.left, v.comparators[0]
                 op = sym[type(v.ops[0])]
                 if isinstance(l, ast.Constant):
                     l, rr, op = rr, l, flip[op]
                 if not (isinstance(l, ast.Call) and call_name(l) == "compare_odx_values" and
-                        isinstance(rr, ast.Constant) and rr.value == 0):
+                        isinstance(rr, ast.Constant) and rr.value == 0 and len(l.args) == 2):
                     raise AnalysisError(f"Limit.{name}: comparison shape not recognised: "
                                         f"{ast.unparse(v)}")
-                args = [ast.unparse(a) for a in l.args]
-                if args == ["self._value", vparam] or args == ["self.value", vparam]:
+                args = ["LIMIT" if env.get(ast.unparse(a)) == "VAL" else ast.unparse(a)
+                        for a in l.args]
+                if args == ["LIMIT", vparam]:
                     op = flip[op]
-                elif args not in ([vparam, "self._value"], [vparam, "self.value"]):
+                elif args != [vparam, "LIMIT"]:
                     run.violation(R, f"Limit.{name}", "compare-args",
                                   f"`{ast.unparse(l)}` does not compare the tested value with the "
                                   "limit's value", _loc(f, r), stmt_key(r))
                     continue
-                if case is None:
-                    raise AnalysisError(f"Limit.{name}: a comparison is not tied to an interval "
-                                        "type")
-                got[case] = op
-            elif isinstance(v, ast.Constant) and v.value is True:
-                for t, pol in conds:
-                    if "_value is None" in ast.unparse(t) and pol:
-                        true_cases.add("NO-VALUE")
-                true_cases.add("INFINITE")
-        for case, op in table.items():
-            if got.get(case) == op:
-                run.ok(R, f"Limit.{name}", f"{case}: value {op} limit", f.loc)
+                got[cname] = op
+            elif isinstance(v, ast.Constant) and isinstance(v.value, bool):
+                got[cname] = str(v.value)
+        for cname, op in table.items():
+            if got.get(cname) == op:
+                run.ok(R, f"Limit.{name}", f"{cname}: value {op} limit", f.loc)
             else:
-                run.violation(R, f"Limit.{name}", f"{case}-operator",
-                              f"for interval type {case} the test is `value {got.get(case)} "
+                run.violation(R, f"Limit.{name}", f"{cname}-operator",
+                              f"for interval type {cname} the test is `value {got.get(cname)} "
                               f"limit`, ODX prescribes `value {op} limit`", f.loc)
-        if "NO-VALUE" in true_cases:
+        r_inf, _ = case(("IT", "INFINITE"))
+        r_nov = [case(it, False)[0] for it in (None, ("IT", "CLOSED"), ("IT", "OPEN"),
+                                               ("IT", "INFINITE"))]
+
+        def _true(r):
+            return isinstance(r, ast.Return) and isinstance(r.value, ast.Constant) and \
+                r.value.value is True
+        if _true(r_inf) and all(_true(r) for r in r_nov):
             run.ok(R, f"Limit.{name}", "no limit value / INFINITE: always complies", f.loc)
         else:
             run.violation(R, f"Limit.{name}", "infinite",
                           "a limit without value (INFINITE) does not comply with every value",
                           f.loc)
         # the closed case is also the default when no interval type is given
-        txt = ast.unparse(f.node)
-        if "self.interval_type is None or self.interval_type == IntervalType.CLOSED" in txt or \
-                "self.interval_type in (None, IntervalType.CLOSED)" in txt:
+        if got.get("NONE") == table["CLOSED"]:
             run.ok(R, f"Limit.{name}", "missing INTERVAL-TYPE is treated as CLOSED", f.loc)
         else:
             run.violation(R, f"Limit.{name}", "default-closed",
